@@ -130,8 +130,10 @@ func Append(ctx context.Context, basen ipld.Node, db *h.DagBuilderHelper) (out i
 		return nil, err
 	}
 
-	// after appendFillLastChild, our depth is now increased by one
-	if !db.Done() {
+	// appendFillLastChild completes the layer of sub-trees of this depth only if
+	// that layer had been started (repeatNumber != 0). A node that ended exactly
+	// on a layer boundary continues with sub-trees of the same depth.
+	if repeatNumber != 0 && !db.Done() {
 		depth++
 	}
 
@@ -227,8 +229,10 @@ func appendRec(ctx context.Context, fsn *h.FSNodeOverDag, db *h.DagBuilderHelper
 		return nil, 0, err
 	}
 
-	// after appendFillLastChild, our depth is now increased by one
-	if !db.Done() {
+	// appendFillLastChild completes the layer of sub-trees of this depth only if
+	// that layer had been started (repeatNumber != 0). A node that ended exactly
+	// on a layer boundary continues with sub-trees of the same depth.
+	if repeatNumber != 0 && !db.Done() {
 		depth++
 	}
 
